@@ -396,7 +396,9 @@ func ruleWhoWrites(c *Ctx) {
 		})
 		if w {
 			writers[fn.Obj.Name()] = true
-			c.check(allowedCol[fn.Obj.Name()], "collection/"+funcName(fn.Obj), fn.Decl.Pos(), "allowed writer of Collection fields",
+			// the bookkeeping functions, or a helper only they call (R19.delta follows such calls)
+			helper := c.calledOnlyFromIn("internal/collection", "New", "Set", "setFill", "Delete", "indexInsert", "indexDelete")[fn.Obj]
+			c.check(allowedCol[fn.Obj.Name()] || helper, "collection/"+funcName(fn.Obj), fn.Decl.Pos(), "allowed writer of Collection fields",
 				fmt.Sprintf("%s writes Collection fields outside New/Set/setFill/Delete: bookkeeping symmetry (R19.delta) does not cover it", funcName(fn.Obj)))
 		}
 	}
